@@ -1,2 +1,260 @@
-(* C07 - placeholder while the proofs are being written *)
-From TS Require Import model.Base model.Flatten model.ManifestOps.
+(* C07 - Who can load what: replicated everywhere, sharded reshards, private stays put.
+   Property theorems only; each closed by [exact] of a lemma from proofs/ManifestOpsProofs.v.
+   Model: model/ManifestOps.v (what is not modelled - DTensor entries, the root-only knob, negative ranks - is
+   listed in its header).  [wf_global W g] is the boolean check [wf_globalb W g = true]: what
+   Snapshot._gather_manifest + consolidate_replicated_entries establish over flatten's output (rank prefixes in
+   0..W-1, W >= 1, paths unique per rank, dict keys distinct under Python equality and under str(), every non-root
+   entry's parent container is in the same rank's manifest and lists its key, replicated leaves only under rank 0
+   and at paths no other rank uses, app_state keys non-empty, one id per private leaf).  The harness evaluates it
+   on every real gathered manifest of a run. *)
+From TS Require Import model.Base model.Flatten model.ManifestOps proofs.FlattenProofs proofs.ManifestOpsProofs
+  gen.ManifestOpsGen proofs.ManifestOpsInst.
+From Coq Require Import Permutation.
+
+(* get_manifest_for_rank never raises on a well-formed manifest, for any rank index (existing or new). *)
+Theorem C07_view_defined : forall W g, wf_global W g ->
+  forall r', exists m, get_manifest_for_rank W g r' = Some m.
+Proof. exact get_defined. Qed.
+Print Assumptions C07_view_defined.
+
+(* Every replicated leaf is in the local manifest of EVERY rank index r' >= 0 - r' < W and r' >= W alike -
+   with exactly its saved entry (same id = same location, dtype, shape, byte range ...). *)
+Theorem C07_replicated_visible_everywhere : forall W g, wf_global W g ->
+  forall r p i, In (r, p, MRepl i) g ->
+  forall r', 0 <= r' -> exists m, get_manifest_for_rank W g r' = Some m /\ mget m p = Some (MRepl i).
+Proof. exact replicated_visible_everywhere. Qed.
+Print Assumptions C07_replicated_visible_everywhere.
+
+(* A private (non-replicated, non-sharded) leaf saved by rank r: rank index r finds it under its path, and it
+   occurs NOWHERE in the local manifest of any other rank index - not for another existing rank, never for
+   r' >= W. *)
+Theorem C07_private_only_to_owner : forall W g, wf_global W g ->
+  forall r p i, In (r, p, MPriv i) g ->
+  forall r' m, 0 <= r' -> get_manifest_for_rank W g r' = Some m ->
+    (r' = r -> mget m p = Some (MPriv i)) /\
+    (forall p', mget m p' = Some (MPriv i) -> r' = r /\ p' = p).
+Proof. exact private_only_to_owner. Qed.
+Print Assumptions C07_private_only_to_owner.
+
+(* A sharded entry visible in a local manifest is the merged entry: its shard list is a permutation of the
+   shards of ALL ranks at that path and is ordered by offsets (no adjacent pair strictly decreasing in Python's
+   list order); it is visible (before elasticity) exactly where the rank itself saved shards. *)
+Theorem C07_sharded_merged : forall W g, wf_global W g ->
+  forall r' m p s, 0 <= r' -> get_manifest_for_rank W g r' = Some m -> mget m p = Some (MShard s) ->
+    s = merged_shards W g p /\ Permutation s (all_shards W g p) /\ sorted_shards s /\
+    r' < W /\ exists s0, In (r', p, MShard s0) g.
+Proof. exact sharded_visible_is_merged. Qed.
+Print Assumptions C07_sharded_merged.
+
+(* After handle_sharded_tensor_elasticity (when it does not raise: the parent container of a requested, missing
+   entry must be in the view) a sharded path p (some rank saved shards there; this rank's view holds nothing else
+   at p) is present iff requested, with the merged entry - whichever rank asks, r' >= W included.  When the entry
+   had to be added under a dict parent, the parent's key list now holds a key k with str(k) = the unquoted path
+   component: the rule by which inflate finds the value.  (k is always a str: an int/bool key comes back as its
+   str() - known finding "C07:elasticity-add:nonstr-key-retyped"; the key is appended at the END of the list.) *)
+Theorem C07_sharded_present_iff_requested : forall W g, wf_global W g ->
+  forall r' reqs m m' p, 0 <= r' ->
+    get_manifest_for_rank W g r' = Some m -> elasticity W g m reqs = Some m' ->
+    merged_has W g p = true -> (forall e, mget m p = Some e -> is_sharded e = true) ->
+    (In p reqs -> mget m' p = Some (MShard (merged_shards W g p))) /\
+    (~ In p reqs -> mget m' p = None) /\
+    (In p reqs -> mget m p = None -> forall ord ks, mget m (parent_of p) = Some (MCont (EDict ord ks)) ->
+       exists ks', mget m' (parent_of p) = Some (MCont (EDict ord ks')) /\
+                   In (KStr (decode (last p []))) ks' /\ key_str (KStr (decode (last p []))) = decode (last p [])).
+Proof. exact sharded_present_iff_requested. Qed.
+Print Assumptions C07_sharded_present_iff_requested.
+
+(* Elasticity leaves every non-sharded leaf alone, keeps list containers, and only APPENDS to dict key lists
+   (kind and the order of the existing keys preserved). *)
+Theorem C07_elasticity_keeps_the_rest : forall W g m, NoDup (map fst m) ->
+  forall reqs m', elasticity W g m reqs = Some m' ->
+  forall q, match mget m q with
+            | Some (MCont (EDict ord ks)) => exists extra, mget m' q = Some (MCont (EDict ord (ks ++ extra)))
+            | Some (MShard s) => mget m' q = if path_memb q reqs && merged_has W g q then Some (MShard s) else None
+            | Some e => mget m' q = Some e
+            | None => mget m' q = if path_memb q reqs && merged_has W g q
+                                  then Some (MShard (merged_shards W g q)) else None
+            end.
+Proof. intros W g m N reqs m' E. exact (proj1 (proj2 (elasticity_lookup W g m N reqs m' E))). Qed.
+Print Assumptions C07_elasticity_keeps_the_rest.
+
+(* Containers.  For r' < W every container entry of rank r' (kind, keys, key order) is unchanged.  For r' >= W
+   the containers are rank 0's: lists as they are; a dict keeps its kind and exactly those keys, in their original
+   relative order, whose child was not withheld - the withheld children being the non-container, non-replicated
+   entries (private AND sharded leaves) directly below it.  In particular a container that held only private
+   leaves is still there and arrives EMPTY (containers are structure, not saved objects). *)
+Theorem C07_containers_preserved : forall W g, wf_global W g ->
+  (forall r' p c, In (r', p, MCont c) g -> mget (manifest_for_existing_rank W g r') p = Some (MCont c)) /\
+  (forall r' m p c, W <= r' -> get_manifest_for_rank W g r' = Some m -> In (0, p, MCont c) g ->
+     mget m p = Some (MCont (match c with
+                             | EList => EList
+                             | EDict ord ks =>
+                                 EDict ord (filter (fun k => negb (str_memb (key_str k)
+                                                       (map decode (withheld_tokens (rank_manifest g 0) p)))) ks)
+                             end)) /\
+     (forall t, In t (withheld_tokens (rank_manifest g 0) p) <->
+                exists e, In (0, p ++ [t], e) g /\ keep_for_new_rank e = false)).
+Proof.
+  intros W g WF. split.
+  - exact (containers_existing W g WF).
+  - exact (containers_new_rank W g WF).
+Qed.
+Print Assumptions C07_containers_preserved.
+
+(* _remove_entry deletes the right key.  With the typed keys of model/Flatten.v (KStr / KInt / KBool), pairwise
+   distinct str() (what _should_flatten_dict guarantees) and pairwise distinct under Python equality (a dict):
+   for the path component flatten() produced for key k - encode (str k), whatever k is: a str containing '/' or
+   '%', "." / "..", an int, a bool - exactly k is removed and every other key stays in place. *)
+Theorem C07_remove_entry_key_match : forall ks k, In k ks -> NoDup (map key_str ks) -> keys_py_distinctb ks = true ->
+  exists l1 l2, ks = l1 ++ k :: l2 /\ remove_key ks (decode (key_token k)) = l1 ++ l2 /\ ~ In k (l1 ++ l2).
+Proof. exact remove_key_of_flatten_token. Qed.
+Print Assumptions C07_remove_entry_key_match.
+
+(* ---- the decision fragments translated from the current source are the modelled ones -------------------------- *)
+(* `if rank < metadata.world_size` of get_manifest_for_rank *)
+Theorem C07_rank_test_gen_is_model : forall W r, is_existing_rank_gen W r = is_existing_rank W r.
+Proof. exact is_existing_rank_gen_is_model. Qed.
+Print Assumptions C07_rank_test_gen_is_model.
+
+(* `if is_container_entry(entry) or is_fully_replicated_entry(entry): continue` of _get_manifest_for_new_rank *)
+Theorem C07_keep_condition_gen_is_model : forall e,
+  keep_for_new_rank_gen (is_container e) (is_replicated e) = keep_for_new_rank e.
+Proof. exact keep_for_new_rank_gen_is_model. Qed.
+Print Assumptions C07_keep_condition_gen_is_model.
+
+(* the key _remove_entry compares with str(k), and the key handle_sharded_tensor_elasticity appends: unquote(key) *)
+Theorem C07_key_expressions_gen_are_model :
+  (forall ks tok, rk_current ks tok = Some (remove_key ks (removed_key_gen tok))) /\
+  (forall W g m p ord ks, mget m p = None ->
+     mget (mset m p (MShard (merged_shards W g p))) (norm_path (removelast p)) = Some (MCont (EDict ord ks)) ->
+     elastic_add W g (Some m) p =
+     Some (mset (mset m p (MShard (merged_shards W g p))) (norm_path (removelast p))
+                (MCont (EDict ord (ks ++ [KStr (elastic_key_gen (last p []))]))))).
+Proof. split; [exact removed_key_gen_is_model | exact elastic_key_gen_is_model]. Qed.
+Print Assumptions C07_key_expressions_gen_are_model.
+
+(* ---- the code before the fix commits, refuted ------------------------------------------------------------------ *)
+Definition C07_m : token := [109].
+Definition C07_ab : pystr := [97; 47; 98].                 (* "a/b" *)
+Definition C07_ab_enc : token := [97; 37; 50; 70; 98].     (* "a%2Fb" = _encode("a/b") *)
+Definition C07_True : token := [84; 114; 117; 101].        (* "True" = str(True) *)
+
+(* Before commit 489d382 _remove_entry compared the ENCODED component with the raw keys and fell back to int():
+   ValueError for a key containing '/' (or '%'), and for a bool key; a snapshot {"m": {"a/b": private}} saved
+   with one rank could not be opened by rank index 1 at all, while the current code withholds the leaf. *)
+Theorem C07_remove_entry_legacy_refuted :
+  (exists ks k, In k ks /\ NoDup (map key_str ks) /\ keys_py_distinctb ks = true /\
+                remove_key_legacy ks (key_token k) = None) /\
+  remove_key_legacy [KBool true; KStr [114]] (key_token (KBool true)) = None /\
+  (exists W g, wf_global W g /\ get_manifest_for_rank_legacy W g W = None /\
+               get_manifest_for_rank W g W = Some [([C07_m], MCont (EDict false []))]).
+Proof.
+  split; [|split].
+  - exists [KStr C07_ab; KStr [114]], (KStr C07_ab). split; [left; reflexivity|].
+    split; [repeat constructor; cbn; intuition discriminate|]. split; vm_compute; reflexivity.
+  - vm_compute. reflexivity.
+  - exists 1, [(0, [C07_m], MCont (EDict false [KStr C07_ab])); (0, [C07_m; C07_ab_enc], MPriv 1)].
+    split; [|split]; vm_compute; reflexivity.
+Qed.
+Print Assumptions C07_remove_entry_legacy_refuted.
+
+(* Before commit bb9e810 handle_sharded_tensor_elasticity appended the ENCODED component to the parent's keys and
+   assumed the parent has keys: a new rank requesting the sharded tensor saved under "a/b" got a key list in which
+   no key has str(k) = "a/b" (inflate then drops the tensor), and requesting one that sits in a list raised;
+   the current code delivers both. *)
+Definition C07_l : token := [108].
+Definition C07_g1 : gman :=
+  [ (0, [C07_m], MCont (EDict false [KStr C07_ab; KStr C07_l]));
+    (0, [C07_m; C07_l], MCont EList);
+    (0, [C07_m; C07_ab_enc], MShard [([0], 1)]);
+    (0, [C07_m; C07_l; [48]], MShard [([0], 2)]) ].
+
+Theorem C07_elasticity_legacy_refuted :
+  wf_global 1 C07_g1 /\
+  (exists m', load_view_legacy 1 C07_g1 1 [[C07_m; C07_ab_enc]] = Some m' /\
+              exists ord ks, mget m' [C07_m] = Some (MCont (EDict ord ks)) /\
+                             forall k, In k ks -> key_str k <> decode C07_ab_enc) /\
+  load_view_legacy 1 C07_g1 1 [[C07_m; C07_l; [48]]] = None /\
+  load_view 1 C07_g1 1 [[C07_m; C07_ab_enc]; [C07_m; C07_l; [48]]] =
+    Some [([C07_m], MCont (EDict false [KStr C07_l; KStr C07_ab])); ([C07_m; C07_l], MCont EList);
+          ([C07_m; C07_ab_enc], MShard [([0], 1)]); ([C07_m; C07_l; [48]], MShard [([0], 2)])].
+Proof.
+  split; [vm_compute; reflexivity|]. split; [|split; vm_compute; reflexivity].
+  eexists. split; [vm_compute; reflexivity|]. exists false, [KStr C07_l; KStr C07_ab_enc].
+  split; [vm_compute; reflexivity|]. intros k [<-|[<-|[]]]; vm_compute; discriminate.
+Qed.
+Print Assumptions C07_elasticity_legacy_refuted.
+
+(* ---- non-vacuity: a W = 2 snapshot with replicated, private, sharded leaves and nested containers ------------- *)
+(* rank 0: {"m": {"r": R1, "p": P10, "a/b": P13, "n": OrderedDict{True: P11, 3: P12}, "s": S[2,0], "l": [P14, R2]}}
+   rank 1: {"m": {"r": R1, "p": P20, "n": OrderedDict{True: P21}, "s": S[1], "l": [P24, R2], "x": P22}}          *)
+Definition C07_r : token := [114].   Definition C07_p : token := [112].   Definition C07_n : token := [110].
+Definition C07_s : token := [115].   Definition C07_x : token := [120].
+Definition C07_g : gman :=
+  [ (0, [C07_m], MCont (EDict false [KStr C07_r; KStr C07_p; KStr C07_ab; KStr C07_n; KStr C07_s; KStr C07_l]));
+    (0, [C07_m; C07_n], MCont (EDict true [KBool true; KInt 3]));
+    (0, [C07_m; C07_l], MCont EList);
+    (0, [C07_m; C07_n; C07_True], MPriv 11);
+    (0, [C07_m; C07_n; [51]], MPriv 12);
+    (0, [C07_m; C07_p], MPriv 10);
+    (0, [C07_m; C07_ab_enc], MPriv 13);
+    (0, [C07_m; C07_l; [48]], MPriv 14);
+    (0, [C07_m; C07_s], MShard [([2], 100); ([0], 101)]);
+    (0, [C07_m; C07_r], MRepl 1);
+    (0, [C07_m; C07_l; [49]], MRepl 2);
+    (1, [C07_m], MCont (EDict false [KStr C07_r; KStr C07_p; KStr C07_n; KStr C07_s; KStr C07_l; KStr C07_x]));
+    (1, [C07_m; C07_n], MCont (EDict true [KBool true]));
+    (1, [C07_m; C07_l], MCont EList);
+    (1, [C07_m; C07_n; C07_True], MPriv 21);
+    (1, [C07_m; C07_p], MPriv 20);
+    (1, [C07_m; C07_l; [48]], MPriv 24);
+    (1, [C07_m; C07_s], MShard [([1], 102)]);
+    (1, [C07_m; C07_x], MPriv 22) ].
+
+Example C07_example_wf : wf_global 2 C07_g.
+Proof. vm_compute. reflexivity. Qed.
+
+Example C07_example_rank0 :
+  get_manifest_for_rank 2 C07_g 0 =
+  Some [([C07_m], MCont (EDict false [KStr C07_r; KStr C07_p; KStr C07_ab; KStr C07_n; KStr C07_s; KStr C07_l]));
+        ([C07_m; C07_n], MCont (EDict true [KBool true; KInt 3])); ([C07_m; C07_l], MCont EList);
+        ([C07_m; C07_n; C07_True], MPriv 11); ([C07_m; C07_n; [51]], MPriv 12); ([C07_m; C07_p], MPriv 10);
+        ([C07_m; C07_ab_enc], MPriv 13); ([C07_m; C07_l; [48]], MPriv 14);
+        ([C07_m; C07_s], MShard [([0], 101); ([1], 102); ([2], 100)]);
+        ([C07_m; C07_r], MRepl 1); ([C07_m; C07_l; [49]], MRepl 2)].
+Proof. vm_compute. reflexivity. Qed.
+
+Example C07_example_rank1 :
+  get_manifest_for_rank 2 C07_g 1 =
+  Some [([C07_m], MCont (EDict false [KStr C07_r; KStr C07_p; KStr C07_n; KStr C07_s; KStr C07_l; KStr C07_x]));
+        ([C07_m; C07_n], MCont (EDict true [KBool true])); ([C07_m; C07_l], MCont EList);
+        ([C07_m; C07_n; C07_True], MPriv 21); ([C07_m; C07_p], MPriv 20); ([C07_m; C07_l; [48]], MPriv 24);
+        ([C07_m; C07_s], MShard [([0], 101); ([1], 102); ([2], 100)]); ([C07_m; C07_x], MPriv 22);
+        ([C07_m; C07_r], MRepl 1); ([C07_m; C07_l; [49]], MRepl 2)].
+Proof. vm_compute. reflexivity. Qed.
+
+(* a new rank: replicated leaves only; "n" held only private leaves and arrives empty; "a/b", "p", "s" are gone
+   from "m"'s keys, the others keep their order; the list entry is untouched *)
+Example C07_example_rank2 :
+  get_manifest_for_rank 2 C07_g 2 =
+  Some [([C07_m], MCont (EDict false [KStr C07_r; KStr C07_n; KStr C07_l]));
+        ([C07_m; C07_n], MCont (EDict true [])); ([C07_m; C07_l], MCont EList);
+        ([C07_m; C07_r], MRepl 1); ([C07_m; C07_l; [49]], MRepl 2)].
+Proof. vm_compute. reflexivity. Qed.
+
+(* the new rank requests the sharded tensor: merged shards of both ranks, key "s" appended to "m" *)
+Example C07_example_rank2_requests_sharded :
+  load_view 2 C07_g 2 [[C07_m; C07_s]] =
+  Some [([C07_m], MCont (EDict false [KStr C07_r; KStr C07_n; KStr C07_l; KStr C07_s]));
+        ([C07_m; C07_n], MCont (EDict true [])); ([C07_m; C07_l], MCont EList);
+        ([C07_m; C07_r], MRepl 1); ([C07_m; C07_l; [49]], MRepl 2);
+        ([C07_m; C07_s], MShard [([0], 101); ([1], 102); ([2], 100)])].
+Proof. vm_compute. reflexivity. Qed.
+
+(* rank 1 does not request the sharded tensor it saved: the entry is dropped *)
+Example C07_example_rank1_drops_sharded :
+  option_map (fun m => mget m [C07_m; C07_s]) (load_view 2 C07_g 1 []) = Some None.
+Proof. vm_compute. reflexivity. Qed.
+
+Example C07_example_legacy_new_rank_raises : get_manifest_for_rank_legacy 2 C07_g 2 = None.
+Proof. vm_compute. reflexivity. Qed.
